@@ -569,6 +569,12 @@ def install(ex):
     @model(r"^core::num::<impl i32>::(div_euclid|rem_euclid)$", "i32::div_euclid / rem_euclid (fresh q, r with 0 <= r < |b|; b = 0 and MIN/-1 panic)")
     def i32_euclid(ex, callee, args, rt):
         a, b = args
+        ca, cb = conc_int(a), conc_int(b)
+        if ca is not None and cb is not None and cb != 0 and not (ca == -2**31 and cb == -1):
+            r_ = ca % abs(cb)
+            q_ = (ca - r_) // cb
+            yield z3.IntVal(q_ if callee.endswith("div_euclid") else r_)
+            return
         bad = z3.Or(b == 0, z3.And(a == -2**31, b == -1))
         for i in ex.branches([bad, z3.Not(bad)]):
             if i == 0:
